@@ -1,7 +1,7 @@
 import PytaskModel.Engine
 import PytaskProofs.Lemmas.Sorter
 import PytaskProofs.Lemmas.EngineOrder
-import PytaskProofs.Lemmas.GraphReach
+import PytaskProofs.Lemmas.SkipGraphReach
 /-!
 Skip / selection / persist lemmas for the build loop of M6 (used by C06 and C17).
 
